@@ -57,6 +57,7 @@ def flow_inputs(rng: random.Random, thorough: bool, want_unstructurable: bool = 
     srcs = enum_exps.c01_family(False)
     srcs = srcs[::7] if not thorough else srcs[::2]
     srcs += enum_exps.loop_nests()[:: (1 if thorough else 2)]
+    srcs += enum_exps.alias_layouts()
     for _ in range(4000 if thorough else 500):
         srcs.append(gen_exps.random_program(rng, max_depth=rng.choice([1, 2, 3])))
     n_corpus_srcs = len(srcs)
@@ -70,7 +71,7 @@ def flow_inputs(rng: random.Random, thorough: bool, want_unstructurable: bool = 
             continue
         rs = gen_flow.renumber(c["ops"])
         gen_flow.sanitise_dmode(rs)
-        if all(len(r) > 0 for r in rs) and gen_flow.well_formed(rs):
+        if any(len(r) > 0 for r in rs) and gen_flow.well_formed(rs):      # empty routines = alias routines
             shaped.append({"routines": rs, "infos": c["infos"], "origin": "compiled" if k < n_corpus_srcs else "compiled-seeded", "src": c["src"]})
             n_seeded += k >= n_corpus_srcs
     cases += shaped
